@@ -5,7 +5,7 @@ use crate::syntax::pretty_decimal::{self, PrettyDecimal};
 use chrono::NaiveDate;
 use winnow::{
     ascii::digit1,
-    combinator::{alt, trace},
+    combinator::{alt, opt, trace},
     error::{FromExternalError, ParserError},
     stream::{AsChar, Stream, StreamIsPartial},
     token::{one_of, take_till, take_while},
@@ -17,15 +17,22 @@ pub fn pretty_decimal<'a, I, E>(input: &mut I) -> winnow::Result<PrettyDecimal, 
 where
     I: Stream<Slice = &'a str> + StreamIsPartial,
     E: ParserError<I> + FromExternalError<I, pretty_decimal::Error>,
-    <I as Stream>::Token: AsChar,
+    <I as Stream>::Token: AsChar + Clone,
 {
+    // A minus sign belongs to the number only at its beginning,
+    // otherwise `1-2` in an expression would be one (invalid) number.
     trace(
         "primitive::comma_decimal",
-        take_while(1.., |c: <I as Stream>::Token| {
-            let c = c.as_char();
-            c.is_ascii_digit() || c == '-' || c == ',' || c == '.'
-        })
-        .try_map(str::parse),
+        (
+            opt(one_of('-')),
+            take_while(0.., |c: <I as Stream>::Token| {
+                let c = c.as_char();
+                c.is_ascii_digit() || c == ',' || c == '.'
+            }),
+        )
+            .take()
+            .verify(|s: &str| !s.is_empty())
+            .try_map(str::parse),
     )
     .parse_next(input)
 }
@@ -99,6 +106,14 @@ mod tests {
         assert_eq!(
             expect_parse_ok(pretty_decimal, "-012.3$"),
             ("$", PrettyDecimal::unformatted(dec!(-12.3)))
+        );
+    }
+
+    #[test]
+    fn comma_decimal_stops_at_minus_after_digits() {
+        assert_eq!(
+            expect_parse_ok(pretty_decimal, "1-2"),
+            ("-2", PrettyDecimal::unformatted(dec!(1)))
         );
     }
 
